@@ -415,6 +415,7 @@ type loopRun struct {
 	Snaps     []loopSnap
 	SnapBefore []loopSnap // snapshot before every cycle
 	SnapAfter  []loopSnap // snapshot after every cycle (before the scrapes that follow)
+	ZeroUnplaced []bool   // per cycle: a healthy discovered zero-size target is on no shard after the cycle
 	FinalObs  []SObs
 	Err       error
 	Tags      map[string]bool
@@ -515,7 +516,25 @@ func runLoopCase(c *WCase, work string) *loopRun {
 			encCObs(o, &res)
 		})
 		na, oa, _ := w.observe()
-		run.SnapAfter = append(run.SnapAfter, snapOf(na, oa))
+		sa := snapOf(na, oa)
+		run.SnapAfter = append(run.SnapAfter, sa)
+		zero := false
+		for _, h := range w.active {
+			t := w.truth[h]
+			if t == nil || !t.Healthy || t.Series != 0 || t.Total != 0 {
+				continue
+			}
+			held := false
+			for _, m := range sa.Assign {
+				if _, ok := m[h]; ok {
+					held = true
+				}
+			}
+			if !held {
+				zero = true
+			}
+		}
+		run.ZeroUnplaced = append(run.ZeroUnplaced, zero)
 		if res.Crashed {
 			run.Tags["crash"] = true
 		}
@@ -750,6 +769,57 @@ func genLoopCase(r *Rng, faulty bool, tail int) *WCase {
 			}
 		}
 	}
+	switch sc := r.Intn(100); {
+	case faulty && sc < 20:
+		// a hand-over whose destination misses the update: everything sits on an overloaded shard 0,
+		// relief moves targets to shard 1, whose update is lost in that very cycle
+		c.Opt = COpt{MaxHead: 100, MaxProc: 1000, MaxShard: 5, MinShard: 2, IdleOn: false}
+		c.Replicas = 2
+		c.Targets, c.Active, c.Ops = nil, nil, nil
+		req := []STgt{}
+		for i, se := range []int64{50, 40, 40, 10}[:3+r.Intn(2)] {
+			t := WTarget{Hash: uint64(11 + i), Series: se, Total: se + r.PickI(0, 10), Healthy: true, ScrapeOk: true}
+			c.Targets = append(c.Targets, t)
+			c.Active = append(c.Active, t.Hash)
+			req = append(req, STgt{Hash: t.Hash, Series: t.Series, Total: t.Total, Job: int(t.Hash % 2)})
+		}
+		c.Ops = append(c.Ops, WOp{Kind: "update", Shard: 0, Req: req})
+		for k := 0; k < 3; k++ {
+			c.Ops = append(c.Ops, WOp{Kind: "round", Shard: 0})
+		}
+		c.Ops = append(c.Ops, WOp{Kind: "cycle", Faults: []WFault{{}, {PostLost: true}}})
+		for k := r.Intn(4); k > 0; k-- {
+			c.Ops = append(c.Ops, WOp{Kind: "round", Shard: r.Intn(2)})
+		}
+		if r.Chance(50) {
+			// the overload goes away: the lost hand-over is not simply repeated
+			c.Ops = append(c.Ops, WOp{Kind: "grow", Hash: 11, Series: 10, Total: 10})
+			c.Ops = append(c.Ops, WOp{Kind: "round", Shard: 0})
+		}
+		if r.Chance(30) {
+			c.Ops = append(c.Ops, WOp{Kind: "restart", Shard: r.Intn(2)})
+		}
+	case !faulty && sc < 15:
+		// scale-down of a lightly loaded tail shard that scrapes faster than the shard taking over
+		c.Opt = COpt{MaxHead: 0, MaxProc: 1000, MaxShard: 4, MinShard: 1, IdleOn: true}
+		c.MaxIdle = 1 + r.Intn(2)
+		c.Replicas = 2
+		c.Targets, c.Active, c.Ops = nil, nil, nil
+		big := WTarget{Hash: 11, Series: 600 + int64(r.Intn(150)), Healthy: true, ScrapeOk: true}
+		big.Total = big.Series
+		small := WTarget{Hash: 12, Series: 150 + int64(r.Intn(80)), Healthy: true, ScrapeOk: true}
+		small.Total = small.Series
+		c.Targets = []WTarget{big, small}
+		c.Active = []uint64{11, 12}
+		c.Ops = append(c.Ops, WOp{Kind: "update", Shard: 0, Req: []STgt{{Hash: 11, Series: big.Series, Total: big.Total, Job: 1}}})
+		c.Ops = append(c.Ops, WOp{Kind: "update", Shard: 1, Req: []STgt{{Hash: 12, Series: small.Series, Total: small.Total, Job: 0}}})
+		for k := 0; k < 3; k++ {
+			c.Ops = append(c.Ops, WOp{Kind: "round", Shard: 0}, WOp{Kind: "round", Shard: 1})
+		}
+		c.Tail = tail * 5 / 2
+		c.TailRounds = []int{1, 2 + r.Intn(2)} // shard 0 once, shard 1 two or three times per cycle
+		return c
+	}
 	if r.Chance(50) {
 		// shards scrape at different speeds
 		c.Tail = tail * 5 / 2
@@ -811,9 +881,11 @@ func loopReason(c *WCase, run *loopRun) string {
 	for _, h := range active {
 		isActive[h] = true
 	}
+	found := map[string]bool{}
 	for h, hs := range holders {
 		if !isActive[h] {
-			return "leftover-undiscovered"
+			found["leftover-undiscovered"] = true
+			continue
 		}
 		nT := 0
 		for _, x := range hs {
@@ -822,20 +894,17 @@ func loopReason(c *WCase, run *loopRun) string {
 			}
 		}
 		t := truth[h]
-		if (c.Opt.MaxHead != 0 && t.Series > c.Opt.MaxHead) || t.Series > c.Opt.MaxProc || t.Total > c.Opt.MaxProc {
-			return "toobig-stays-assigned"
-		}
-		if nT > 0 && len(hs) == 1 {
-			return "intransfer-no-partner"
-		}
-		if nT > 0 && nT == len(hs) {
-			return "intransfer-all-copies"
-		}
-		if nT > 0 {
-			return "transfer-pending"
-		}
-		if len(hs) > 1 {
-			return "duplicate-normal"
+		switch {
+		case (c.Opt.MaxHead != 0 && t.Series > c.Opt.MaxHead) || t.Series > c.Opt.MaxProc || t.Total > c.Opt.MaxProc:
+			found["toobig-stays-assigned"] = true
+		case nT > 0 && len(hs) == 1:
+			found["intransfer-no-partner"] = true
+		case nT > 0 && nT == len(hs):
+			found["intransfer-all-copies"] = true
+		case nT > 0:
+			found["transfer-pending"] = true
+		case len(hs) > 1:
+			found["duplicate-normal"] = true
 		}
 	}
 	for _, h := range active {
@@ -843,16 +912,24 @@ func loopReason(c *WCase, run *loopRun) string {
 		if len(holders[h]) == 0 && t.Healthy {
 			switch {
 			case t.Series == 0 && t.Total == 0:
-				return "unscraped-zero-size"
+				found["unscraped-zero-size"] = true
 			case (c.Opt.MaxHead != 0 && t.Series > c.Opt.MaxHead) || t.Series > c.Opt.MaxProc || t.Total > c.Opt.MaxProc:
-				continue // too big: must not be assigned
+				// too big: must not be assigned
 			case (c.Opt.MaxHead != 0 && t.Series == c.Opt.MaxHead) || t.Total == c.Opt.MaxProc:
-				return "unscraped-at-limit"
+				found["unscraped-at-limit"] = true
 			case (c.Opt.MaxHead != 0 && t.Series+1 >= c.Opt.MaxHead) || t.Total+1 >= c.Opt.MaxProc:
-				return "unscraped-near-limit"
+				found["unscraped-near-limit"] = true
 			default:
-				return "unscraped"
+				found["unscraped"] = true
 			}
+		}
+	}
+	// one cause per history, by a fixed priority: an assigned too-big target keeps relief and
+	// scale-down busy for ever, everything else seen next to it is a consequence
+	for _, r := range []string{"toobig-stays-assigned", "unscraped-zero-size", "leftover-undiscovered", "intransfer-no-partner",
+		"intransfer-all-copies", "duplicate-normal", "transfer-pending", "unscraped-at-limit", "unscraped-near-limit", "unscraped"} {
+		if found[r] {
+			return r
 		}
 	}
 	return "not-quiet"
@@ -967,7 +1044,11 @@ func runLoop(a Args) *Result {
 		// scale-up clause on every cycle
 		for k, f := range flags {
 			if len(f) == 5 && f[2] == '0' {
-				res.ImplViol = capViol(res.ImplViol, Violation{Property: prop, Clause: "scaleUp", Signature: prop + "/scaleUp/" + loopReason(c, run),
+				why := "other"
+				if k < len(run.ZeroUnplaced) && run.ZeroUnplaced[k] {
+					why = "unscraped-zero-size"
+				}
+				res.ImplViol = capViol(res.ImplViol, Violation{Property: prop, Clause: "scaleUp", Signature: prop + "/scaleUp/" + why,
 					What: fmt.Sprintf("cycle %d: all shards in sync, an eligible unscraped target was not placed and more shards are allowed, but the requested shard count does not exceed the current one", k), Case: full}, 2)
 				break
 			}
